@@ -184,42 +184,56 @@ Fixpoint cache_get (ch : cache) (cid ident : N) : option resolved :=
   | (c, i, r) :: rest => if (c =? cid) && (i =? ident) then Some r else cache_get rest cid ident
   end.
 
-(* _resolve_call_from_token (the cache-miss path) *)
-Definition resolve_call (info : sinfo) (ident cid : N) (ca : option call) : option resolved :=
+(* _resolve_call_from_token (the cache-miss path); inr = the refusal (see [outcome]) *)
+Definition resolve_call (info : sinfo) (ident cid : N) (ca : option call) : resolved + N :=
   match ca with
-  | None => None                                              (* Missing call token *)
+  | None => inr 2                                             (* Missing call token *)
   | Some ca =>
-      if negb (ca_ident ca =? ident) then None                (* AEAD: AAD mismatch *)
-      else if negb (ca_callid ca =? cid) then None            (* does not belong to the supplied call token *)
+      if negb (ca_ident ca =? ident) then inr 3               (* AEAD: AAD mismatch *)
+      else if negb (ca_callid ca =? cid) then inr 4           (* does not belong to the supplied call token *)
       else match ca_cstate ca with
-           | None => Some (resolved_of ca)
-           | Some t => if existsb (N.eqb t) (declared (classes info)) then Some (resolved_of ca) else None
+           | None => inl (resolved_of ca)
+           | Some t => if existsb (N.eqb t) (declared (classes info)) then inl (resolved_of ca) else inr 5
            end
   end.
 
+(* a required field (no default) of the class has no column *)
+Definition missing_required (fs : list field) (cols : list (N * value)) : bool :=
+  existsb (fun f => match f_default f, assoc (f_name f) cols with None, None => true | _, _ => false end) fs.
+
+(* refusal classes (all answered 400): 1 cursor token does not open under this identity; 2 cache miss and no call
+   token; 3 call token does not open under this identity; 4 call token of another stream; 5 its call-state type is not
+   declared by the URL's method; 6 union-tagged payload at a single-class method; 7 untagged payload at a union method;
+   8 tag outside the union; 9 compact payload at a class without compact layout; 10 a required field has no column;
+   11 a column value is not convertible (Enum) *)
 Inductive outcome :=
-| Rejected (inserted : bool)                                       (* HTTP 400; inserted = a cache entry was put *)
+| Rejected (inserted : bool) (why : N)                             (* HTTP 400; inserted = a cache entry was put *)
 | Accepted (inserted : bool) (c : N) (vals : list (N * value)) (r : resolved).
         (* the method's state class c is instantiated with vals, bound to r and handed to process()/on_cancel() *)
 
 (* _unpack_and_recover_state as called by _run_stream_exchange_sync for URL method [mname], request identity [ident] *)
 Definition accept (msgpack : bool) (svc : service) (ch : cache) (mname ident : N) (cu : cursor) (ca : option call) : outcome :=
   match find_method svc mname with
-  | None => Rejected false                                      (* 404 before dispatch *)
+  | None => Rejected false 0                                    (* 404 before dispatch *)
   | Some m =>
-      if negb (cu_ident cu =? ident) then Rejected false        (* AEAD: AAD mismatch *)
+      if negb (cu_ident cu =? ident) then Rejected false 1      (* AEAD: AAD mismatch *)
       else
         let hit := cache_get ch (cu_callid cu) ident in
-        let rc := match hit with Some r => Some r | None => resolve_call (m_info m) ident (cu_callid cu) ca end in
+        let rc := match hit with Some r => inl r | None => resolve_call (m_info m) ident (cu_callid cu) ca end in
         match rc with
-        | None => Rejected false
-        | Some r =>
+        | inr why => Rejected false why
+        | inl r =>
             let ins := match hit with Some _ => false | None => true end in
             match resolve_cls (m_info m) (cu_state cu) with
-            | None => Rejected ins
+            | None => Rejected ins (match m_info m, sb_tag (cu_state cu) with Single _, _ => 6 | Union _, None => 7 | Union _, Some _ => 8 end)
             | Some c =>
                 match deser msgpack c (cu_state cu) with
-                | None => Rejected ins
+                | None => Rejected ins (match sb_enc (cu_state cu) with
+                                        | Compact => if msgpack && flat c
+                                                     then (if missing_required (c_fields c) (sb_cols (cu_state cu)) then 10 else 11)
+                                                     else 9
+                                        | Arrow => if missing_required (c_fields c) (sb_cols (cu_state cu)) then 10 else 11
+                                        end)
                 | Some vals => Accepted ins (c_id c) vals r
                 end
             end
@@ -236,13 +250,13 @@ Definition cache_after (svc : service) (ch : cache) (mname ident : N) (cu : curs
       else match cache_get ch (cu_callid cu) ident with
            | Some _ => ch
            | None => match resolve_call (m_info m) ident (cu_callid cu) ca with
-                     | None => ch
-                     | Some r => (cu_callid cu, ident, r) :: ch
+                     | inr _ => ch
+                     | inl r => (cu_callid cu, ident, r) :: ch
                      end
            end
   end.
 
-Definition accepted (o : outcome) : bool := match o with Accepted _ _ _ _ => true | Rejected _ => false end.
+Definition accepted (o : outcome) : bool := match o with Accepted _ _ _ _ => true | Rejected _ _ => false end.
 
 (* ---- histories ------------------------------------------------------------------------------------------------- *)
 Record world := {
@@ -268,7 +282,7 @@ Definition resolved_eqb (a b : resolved) : bool :=
   option_eqb N.eqb (r_cstate a) (r_cstate b) && (r_out a =? r_out b) && (r_in a =? r_in b) && (r_sid a =? r_sid b).
 Definition outcome_eqb (a b : outcome) : bool :=
   match a, b with
-  | Rejected i, Rejected j => Bool.eqb i j
+  | Rejected i x, Rejected j y => Bool.eqb i j && (x =? y)
   | Accepted i c v r, Accepted j d w s =>
       Bool.eqb i j && (c =? d) && list_eqb (pair_eqb N.eqb value_eqb) v w && resolved_eqb r s
   | _, _ => false
@@ -278,7 +292,7 @@ Definition outcome_eqb (a b : outcome) : bool :=
    never shows the input schema to the method) *)
 Definition outcome_obs_eqb (m o : outcome) : bool :=
   match m, o with
-  | Rejected i, Rejected j => Bool.eqb i j
+  | Rejected i x, Rejected j y => Bool.eqb i j && (x =? y)
   | Accepted i c v r, Accepted j d w s =>
       Bool.eqb i j && (c =? d) && list_eqb (pair_eqb N.eqb value_eqb) v w
       && option_eqb N.eqb (r_cstate r) (r_cstate s) && (r_out r =? r_out s) && (r_sid r =? r_sid s)
